@@ -265,6 +265,7 @@ def _expr_rv(facts, body, rv, depth, memo):
     if k == 'agg':
         kd = rv['kind']
         tag = kd.get('vname') or kd['a']
+        if kd['a'] == 'closure' and kd.get('path'): tag = kd['path'].split('::')[-1]      # {closure#N}: which closure it is
         return ('agg', tag) + tuple(expr_of(facts, body, o, depth, memo) for o in rv['ops'])
     if k == 'repeat': return ('repeat', expr_of(facts, body, rv['a'], depth, memo), rv['n'])
     return ('rv?', k)
